@@ -145,6 +145,12 @@ class ListWrapper(typing.MutableSequence[T]):
         for v in other:
             self.append(v)
 
+    def reverse(self) -> None:
+        # MutableSequence.reverse swaps elements through __setitem__, which
+        # cannot express exchanging two elements this list already owns.
+        # Reversing changes no ownership, so no hooks need to run.
+        self._data.reverse()
+
     # end functions for ABC
     def __str__(self) -> str:
         return str(self._data)
